@@ -83,7 +83,10 @@ def chain_ok(chain):
 # if/else.  None of it is active at the failure, so none of it may show in the trace.
 HIST = ["hq = 0", "while hq < 3 {", "\thq = hq + 1", "\tif hq == 1 {", "\t\tcontinue", "\t} else if hq == 2 {", "\t\thq = hq + 0", "\t} else {", "\t\tbreak", "\t}", "}",
         "from 0 to 3, gq {", "\tif gq == 1 {", "\t\tcontinue", "\t} else {", "\t\tif gq == 2 {", "\t\t\tbreak", "\t\t}", "\t}", "}",
-        "hz = 0", "if a == 1 {", "\thz = 1", "} else {", "\thz = 2", "}"]
+        "hz = 0", "if a == 1 {", "\thz = 1", "} else {", "\thz = 2", "}",
+        # loops nested IN the arms of an if / else, left through their condition and through break
+        "if a == 1 {", "\thw = 0", "\twhile hw < 2 {", "\t\thw = hw + 1", "\t}", "} else {", "\tfrom 0 to 2, ge {", "\t\thz = ge", "\t}", "}",
+        "if a == 2 {", "\thz = 3", "} else if a == 1 {", "\tfrom 0 to 3, gf {", "\t\tif gf == 1 {", "\t\t\tbreak", "\t\t}", "\t}", "} else {", "\thz = 4", "}"]
 OPEN_BLOCKS = {"plain": 0, "if": 1, "else": 1, "while": 2, "from": 1}
 
 
